@@ -514,6 +514,22 @@ ENC = "utype.utils.encode"
 DEFAULT_PRIM = "string"
 
 
+def _callee_summary(f, atom) -> str:
+    """for a guard that calls a helper of the same module: the helper's returned conditions (so that a widened helper
+    is a different construct than the one a known finding lists)"""
+    if isinstance(atom, ast.Call) and isinstance(atom.func, ast.Name):
+        g = f.module.functions.get(atom.func.id)
+        if g is not None and g.cls is None:
+            ga = analysis(g)
+            parts = []
+            for m in ga.cfg.nodes:
+                if m.kind == "stmt" and isinstance(m.ast, ast.Return) and ga.cfg.is_live(m):
+                    cond = " and ".join(sorted(("" if p else "not ") + unparse(a) for a, p in ga.facts.atoms_at(m)))
+                    parts.append((cond + " -> " if cond else "") + unparse(m.ast.value))
+            return "{" + "; ".join(sorted(parts)) + "}"
+    return ""
+
+
 def r13g(run, F):
     mod = run.repo.module(ENC)
     pm = F.module_value(CONST, "PRIMITIVE_MAP")
@@ -539,7 +555,8 @@ def r13g(run, F):
                 if n.kind != "stmt" or not isinstance(n.ast, ast.Return) or not fa.cfg.is_live(n):
                     continue
                 kinds = _ret_kind(fa, n, n.ast.value)
-                guard = sorted(f"{t_}={p}" for t_, p in _facts(fa, n))
+                guard = sorted(f"{t_}={p}" + _callee_summary(f, a_) for (t_, p), (a_, _p) in
+                               zip([(unparse(a), p) for a, p in fa.facts.atoms_at(n)], fa.facts.atoms_at(n)))
                 ok = kinds <= compat
                 if "unknown" in kinds:
                     raise AnalysisError(f"R13g: cannot classify `{norm_stmt(n.ast)}` in {f.ref}")
